@@ -4,11 +4,18 @@ from . import c12
 
 def plan(tier, seed, kf_ids):
     p = c12.plan(tier, seed, kf_ids, prefix="c17", budget=True)
+    from core import Job
+    from . import trans as T
+    a = "I9F23"
+    name = "c17_pow_i9f23_family"
+    p["jobs"].append(Job(name, "tr_total_pow!(%s, %d, I9F23, I9F23, i32, %s, %s, %s);" % (name, T.budget(a) + 2, T.family(a), T.family(a), T.budget_expr(a)),
+                         "pow::<I9F23,I9F23>(x, y) for x and y in the operand family (every binade +-255 ulps, max - t, min + t): within the "
+                         "iteration budget", timeout=3600, inst="pow I9F23", bounds="family x family"))
     p["bounds"] = ("iteration budget enforced by the tick() hook at the top of every loop body: the solver proves the TIGHTER "
                    "budget W+32 for every operand (a call that needs more iterations fails the 'iteration budget exceeded' "
                    "check; unwinding = W+34 with unwinding assertions on); a counterexample is replayed natively with the "
                    "property's budget 4*W+64 and reported only if it exceeds that; operands as for C12 but sin/cos over the "
                    "FULL operand range of each type (no |x| <= 200 restriction)")
     p["outside"] = ["operands outside the families for sqrt/ln/log2/exp on 64/128-bit types (their trip counts are literals "
-                    "0..frac_nbits plus the halving loop of log2_inner)", "pow (= ln + exp)", "powi (linear in |n| by design)"]
+                    "0..frac_nbits plus the halving loop of log2_inner)", "powi (linear in |n| by design)"]
     return p
